@@ -28,7 +28,7 @@ func TestMain(m *testing.M) {
 
 var (
 	schemes = []string{"http", "https"}
-	hosts   = []string{"a", "b", "a:80", "[::1]:8080"}
+	hosts   = []string{"a", "sa", "b", "a:80", "[::1]:8080"} // "http"+"sa" and "https"+"a" read the same when glued together
 	paths   = []string{"", "/", "/p", "/p/", "/a%2Fb", "/a/b"}
 	users   = []string{"", "u@", "u:p@"}
 	queries = []string{"", "?x=1"}
@@ -37,7 +37,7 @@ var (
 func genURL(t *rapid.T, label string) *url.URL {
 	s := rapid.SampledFrom(schemes).Draw(t, label+"_scheme") + "://" +
 		rapid.SampledFrom(users).Draw(t, label+"_user") +
-		rapid.SampledFrom(hosts[:3+rapid.IntRange(0, 1).Draw(t, label+"_h6")]).Draw(t, label+"_host") +
+		rapid.SampledFrom(hosts[:4+rapid.IntRange(0, 1).Draw(t, label+"_h6")]).Draw(t, label+"_host") +
 		rapid.SampledFrom(paths).Draw(t, label+"_path") +
 		rapid.SampledFrom(queries).Draw(t, label+"_query")
 	u, err := url.Parse(s)
